@@ -9,7 +9,7 @@ CONSTANTS MaxSize, MaxVal, MaxSpecs, MinSpecs, WithBad, EmitCases
 Vals == 0..MaxVal
 NumTokens == {[k |-> "ab", a |-> x, b |-> y] : x \in Vals, y \in Vals}       \* includes reversed (invalid) ones
              \cup {[k |-> kk, a |-> x, b |-> 0] : kk \in {"from", "suffix"}, x \in Vals}
-BadTokens == {[k |-> kk, a |-> 0, b |-> 1] : kk \in BadKinds \ {"neg"}} \cup {[k |-> "neg", a |-> 1, b |-> 0]}
+BadTokens == {[k |-> kk, a |-> 0, b |-> 1] : kk \in (BadKinds \ {"neg"}) \cup {"space"}} \cup {[k |-> "neg", a |-> 1, b |-> 0]}
 Tokens == NumTokens \cup (IF WithBad THEN BadTokens ELSE {}) \cup {[k |-> "empty", a |-> 0, b |-> 0]}
 SpecSeqs == UNION {[1..n -> Tokens] : n \in MinSpecs..MaxSpecs}
 Headers == {[present |-> FALSE, unit |-> "bytes", specs |-> <<>>]}
